@@ -198,6 +198,8 @@ def do_op(tf, w, op):
     if kind == 'slice':
         return c[op['start']:op['stop']:op['step']]
     if kind == 'index':
+        if op.get('np'):
+            return c[getattr(np, op['np'])(op['i'])]       # a numpy integer is an integer too
         return c[op['i']]
     if kind == 'data':
         return c.data
